@@ -121,8 +121,19 @@ func StoreFacts(root *Node, t *Tokens) Facts {
 							f["ext/"+id+"/?"+q(xk)] = q(xv)
 						}
 					}
-					for xk := range sub.B {
-						f["ext/"+id+"/?bucket:"+q(xk)] = "1"
+					for xk, xsub := range sub.B {
+						switch xk {
+						case "chiefOf":
+							if l := TypedKeys(xsub); len(l) > 0 {
+								f["backChief/"+id] = t.list(l)
+							}
+						case "squads":
+							if l := TypedKeys(xsub); len(l) > 0 {
+								f["lnkST/"+id] = t.list(l)
+							}
+						default:
+							f["ext/"+id+"/?bucket:"+q(xk)] = "1"
+						}
 					}
 				default:
 					f["ent/"+id+"/?bucket:"+q(k)] = "1"
@@ -135,10 +146,20 @@ func StoreFacts(root *Node, t *Tokens) Facts {
 			id := t.Model(rid)
 			f["tms/"+id] = "1"
 			for k, v := range eb.K {
+				if k == "chief" {
+					if c := t.Model(DecodeValue(v)); c != Nil {
+						f["chief/"+id] = c
+					}
+					continue
+				}
 				f["tms/"+id+"/?"+q(k)] = q(v)
 			}
 			for k, sub := range eb.B {
 				switch k {
+				case "squadStaff":
+					if l := TypedKeys(sub); len(l) > 0 {
+						f["lnkTS/"+id] = t.list(l)
+					}
 				case "tmembers":
 					if l := TypedKeys(sub); len(l) > 0 {
 						f["backTeam/"+id] = t.list(l)
@@ -246,7 +267,12 @@ func ModelFacts(db map[string]any) Facts {
 			f["sKey/"+fmt.Sprint(r)] = "1"
 		}
 	}
-	for _, s := range []string{"sRoles", "backBoss", "backTeam", "lnkPT", "lnkTP"} {
+	for t, c := range obj("chief") {
+		if fmt.Sprint(c) != Nil {
+			f["chief/"+t] = fmt.Sprint(c)
+		}
+	}
+	for _, s := range []string{"sRoles", "backBoss", "backTeam", "lnkPT", "lnkTP", "backChief", "lnkST", "lnkTS"} {
 		for k, v := range obj(s) {
 			if l := jlist(v); l != "" {
 				f[s+"/"+k] = l
@@ -276,6 +302,10 @@ func Owner(key string) string {
 		return "C03,C15"
 	case strings.HasPrefix(key, "backBoss/"), strings.HasPrefix(key, "backTeam/"):
 		return "C04"
+	case strings.HasPrefix(key, "chief/"), strings.HasPrefix(key, "backChief/"):
+		return "C04,C15"
+	case strings.HasPrefix(key, "lnkST/"), strings.HasPrefix(key, "lnkTS/"):
+		return "C05,C15"
 	case strings.HasPrefix(key, "lnk"), strings.HasPrefix(key, "rc"):
 		return "C05"
 	case strings.HasPrefix(key, "ext/"):
